@@ -35,15 +35,20 @@ ASSUMPTIONS = [
     'references are calibrated on NaN-free input in the same run (mask = none cases)',
     'rejection = any raised exception; the exception type is recorded as outcome',
     'values outside the enumerated alphabets are represented by fixed generic fills only',
-    'rescale is called with threshold=1e-16 (the statement does not quantify the default stopping rule)',
+    'rescale is called with threshold=1e-24: the routine converges linearly and for weakly overlapping '
+    'coverings slowly (error ~ 850 x sqrt(threshold) measured), so with the default 1e-8 proportional parts '
+    'agree only to 1e-2..1e-3 and with 1e-16 only to ~1e-5; the statement does not quantify the stopping rule. '
+    'A call that does not terminate in 20 s is excluded and counted (documented: may not converge for small '
+    'thresholds)',
     'sigma_k given as 1-D vector is not supported by util.matrix.get_v (pooling.pool_rdm / fit_regress) even '
     'without NaNs; that class is probed NaN-free first and excluded (counted) when it raises there',
 ]
 TOL_PLAIN = 1e-9
 TOL_CG = 1e-4
-TOL_FIT_CG = 1e-4
+TOL_FIT_CG = 1e-3
+RESCALE_THRESHOLD = 1e-24
 TOL_RESCALE = 1e-5
-TOLERANCES = {'plain and whitened without sigma_k': TOL_PLAIN, 'whitened compare with sigma_k (cg, rtol 1e-5)': TOL_CG, 'whitened pool/fit (cg, atol 1e-9)': TOL_FIT_CG,
+TOLERANCES = {'plain and whitened without sigma_k': TOL_PLAIN, 'whitened compare with sigma_k (cg, rtol 1e-5)': TOL_CG, 'whitened pool/fit (cg, rtol 1e-5)': TOL_FIT_CG,
               'rescale proportionality': 1e-9, 'rescale common scale (relative)': TOL_RESCALE}
 BOUNDS = {
     'quick': {'n_cond': [4], 'masks': 'all with >= 3 entries left (42)', 'fills': 2,
@@ -909,9 +914,9 @@ def _case_partials(case, ctx):
             ctx.case(case)
             try:
                 with _alarm(20):
-                    out = rescale(fp, method=case['rescale'], threshold=1e-16)
+                    out = rescale(fp, method=case['rescale'], threshold=RESCALE_THRESHOLD)
             except _Timeout:
-                ctx.fail(tag + '|no-termination-in-20s', case, 'rescale(threshold=1e-16) on %s' % D.tolist())
+                ctx.exclude('rescale(threshold=%g) did not terminate within 20 s' % RESCALE_THRESHOLD)
                 return
             O = np.asarray(out.dissimilarities, float)
             if O.shape != D.shape:
@@ -934,14 +939,15 @@ def _case_partials(case, ctx):
                     ctx.fail(tag + '|constant-not-positive', dict(case, rdm=r), 'constant %r' % j['c'])
             present = [set(np.flatnonzero(~np.isnan(r)).tolist()) for r in D]
             if case['vals'] == 'proportional':
-                if R.overlap_connected(present):
-                    d = R.common_scale_dev(O.tolist())
-                    ctx.dev('rescale/common-scale', d)
-                    if d > TOL_RESCALE:
-                        ctx.fail(tag + '|proportional-partials-not-on-common-scale', case,
-                                 'shared entries differ by %g relative: in %s out %s' % (d, D.tolist(), O.tolist()))
-                else:
-                    ctx.exclude('covering not connected by shared pairs: common scale undefined')
+                # a common scale is observable on the entries two RDMs share (whole covering if it is
+                # connected by shared pairs, else inside each connected group)
+                ctx.count('rescale:overlap-connected' if R.overlap_connected(present)
+                          else 'rescale:connected-groups-only')
+                d = R.common_scale_dev(O.tolist())
+                ctx.dev('rescale/common-scale', d)
+                if d > TOL_RESCALE:
+                    ctx.fail(tag + '|proportional-partials-not-on-common-scale', case,
+                             'shared entries differ by %g relative: in %s out %s' % (d, D.tolist(), O.tolist()))
             ctx.outcome([round(float(v), 6) for v in O[0][~np.isnan(O[0])][:2]])
     else:
         raise ValueError(op)
